@@ -28,6 +28,9 @@ func init() { monitors["C13"] = monC13 }
 type step struct {
 	Data  string `json:"data,omitempty"`  // hex
 	Fault string `json:"fault,omitempty"` // eof | timeout | deadline | other
+	// a step with both Data and Fault returns the bytes TOGETHER with the error in one
+	// Read call, as io.Reader allows
+	DelayMs int `json:"delay_ms,omitempty"` // the Read blocks this long before it reports the fault
 }
 
 type faultCase struct {
@@ -90,7 +93,29 @@ func (s *scriptReader) Read(p []byte) (int, error) {
 		return 0, io.EOF
 	}
 	st := s.steps[s.pos]
+	if st.Fault != "" && st.Data != "" {
+		// data and error in the same call
+		d := unhex(st.Data)
+		n := copy(p, d)
+		if n < len(d) {
+			s.steps[s.pos].Data = hexs(d[n:])
+			s.supplied += n
+			s.lastFault = time.Time{}
+			return n, nil
+		}
+		s.pos++
+		s.supplied += n
+		s.lastFault = time.Time{}
+		s.noteFault()
+		return n, faultErr(st.Fault)
+	}
 	if st.Fault != "" {
+		if st.DelayMs > 0 {
+			// the source stays silent for a while before it reports the end of file
+			s.mu.Unlock()
+			time.Sleep(time.Duration(st.DelayMs) * time.Millisecond)
+			s.mu.Lock()
+		}
 		s.pos++
 		s.noteFault()
 		return 0, faultErr(st.Fault)
@@ -154,7 +179,7 @@ func runFaultScript(k faultCase) faultObs {
 func allData(steps []step) []byte {
 	var b []byte
 	for _, s := range steps {
-		if s.Fault == "" {
+		if s.Data != "" {
 			b = append(b, unhex(s.Data)...)
 		}
 	}
@@ -346,6 +371,29 @@ func monC13(c *child.Ctx, replay json.RawMessage) {
 		for pos := si % 4; pos <= len(data); pos += 4 {
 			f1, f2 := faultKinds[r.Intn(3)], faultKinds[r.Intn(3)]
 			add(faultCase{Steps: mk(pos, []string{f1, f2}), TimeoutMs: tolMs, WaitMs: 1, Tolerant: true, Note: fmt.Sprintf("%s+%s after byte %d", f1, f2, pos)}, inside[pos])
+		}
+		// bytes handed over together with the fault, in one Read call (as e.g. HTTP
+		// bodies and decompressors do); and a Read that blocks longer than the tolerance
+		// before it reports the first of two faults
+		for i := 0; i < 6; i++ {
+			pos := r.Range(1, len(data)-1)
+			cut := r.Range(0, pos-1)
+			st := chunked(data[:cut], chunk)
+			st = append(st, step{Data: hexs(data[cut:pos]), Fault: faultKinds[r.Intn(3)]})
+			if r.Chance(1, 2) {
+				st = append(st, step{Fault: faultKinds[r.Intn(3)]})
+			}
+			st = append(st, chunked(data[pos:], chunk)...)
+			c.Count("scripts_with_data_and_fault_in_one_read", 1)
+			add(faultCase{Steps: st, TimeoutMs: tolMs, WaitMs: 1, Tolerant: true, Note: fmt.Sprintf("bytes %d..%d arrive together with the fault", cut, pos)}, inside[pos])
+		}
+		if si%3 == 0 {
+			pos := r.Range(0, len(data))
+			st := chunked(data[:pos], chunk)
+			st = append(st, step{Fault: faultKinds[r.Intn(3)], DelayMs: tolMs + 60}, step{Fault: faultKinds[r.Intn(3)]})
+			st = append(st, chunked(data[pos:], chunk)...)
+			c.Count("scripts_with_a_slow_first_fault", 1)
+			add(faultCase{Steps: st, TimeoutMs: tolMs, WaitMs: 1, Tolerant: true, Note: fmt.Sprintf("the read blocks longer than the tolerance before the first of two faults after byte %d", pos)}, inside[pos])
 		}
 		// two separate interruptions
 		for i := 0; i < 6; i++ {
